@@ -520,7 +520,9 @@ def _run_objname(rec, seed, budget, shard, nshards):
 # (iii) scripts that name an output twice must be rejected
 
 DUP_NAMES = ['config.h', 'config.c', 'config.txt', 'out.txt', 'gen', 'prog',
-             'x/y.txt', 'data.txt']
+             'x/y.txt', 'data.txt',
+             # names the backends have to escape when they write them
+             'unit tests', 'notes#1.txt', 'p%q', 'a$b', 'x y/z w.txt']
 
 
 @st.composite
